@@ -30,7 +30,22 @@ class HeapFn(cxx2gal.LoopFn):
 
     def is_rec_ptr(self, q):
         q = norm_type(q)
+        if re.fullmatch(r".*\*\s*\*", q):
+            return True                      # a pointer to a pointer: the address of a cell
         return q.endswith("*") and self.is_record(q[:-1])
+
+    def is_ptr_to_cell(self, q):
+        return bool(re.fullmatch(r".*\*\s*\*", norm_type(q)))
+
+    def gvar(self, name):
+        g = self.cfg.get("heap_globals", {}).get(name)
+        if g is None:
+            return None
+        if g not in self.vars:
+            self.vars[g] = "hptr"
+            self.order.append(g)
+            self.gparams.append(g)
+        return g
 
     def coqtype_of(self, q):
         q = TYPEDEFS.get(norm_type(q), q)
@@ -137,16 +152,20 @@ class HeapFn(cxx2gal.LoopFn):
             raise Unsupported("dereference of an opaque pointer (%s)" % qual(inn[0]))
         if kd == "CXXThisExpr":
             raise Unsupported("this as an lvalue")
+        if kd == "DeclRefExpr" and n["referencedDecl"].get("kind") == "VarDecl" and self.gvar(n["referencedDecl"]["name"]):
+            return k(("cell", self.gvar(n["referencedDecl"]["name"]), qual(n)))     # a global object: its cells are in the heap
         return super().L(n, k)
-
-    def is_ptr_to_cell(self, q):
-        return False
 
     def coqtype_safe(self, q):
         try:
             return self.coqtype_of(q)
         except Unsupported:
             return None
+
+    def is_local_ref(self, tgt):
+        """an assignment target that is a parameter or local variable (everything else is a store into the heap)"""
+        return tgt.get("kind") == "DeclRefExpr" and tgt["referencedDecl"].get("kind") in ("ParmVarDecl", "VarDecl") and \
+            tgt["referencedDecl"]["name"] not in self.cfg.get("heap_globals", {})
 
     def this_var(self):
         if "this_" not in self.vars:
@@ -173,7 +192,9 @@ class HeapFn(cxx2gal.LoopFn):
         xs = x
         while xs.get("kind") in SKIP:
             xs = self.inner(xs)[0]
-        if xs.get("kind") in ("MemberExpr", "ArraySubscriptExpr") or (xs.get("kind") == "UnaryOperator" and xs.get("opcode") == "*"):
+        is_g = xs.get("kind") == "DeclRefExpr" and xs["referencedDecl"].get("kind") == "VarDecl" and \
+            xs["referencedDecl"]["name"] in self.cfg.get("heap_globals", {})
+        if is_g or xs.get("kind") in ("MemberExpr", "ArraySubscriptExpr") or (xs.get("kind") == "UnaryOperator" and xs.get("opcode") == "*"):
             return self.L(x, with_lv)
         return super().incdec(n, k)
 
@@ -266,6 +287,8 @@ class HeapFn(cxx2gal.LoopFn):
                 return self.E(x, lambda p: self.E(inn[2], lambda sz: "(let evs := evs ++ [%s %s %s] in %s)" % (con, p, sz, k("0"))))
             if isinstance(spec0, dict) and spec0.get("event"):
                 return "(let evs := evs ++ [%s] in %s)" % (spec0["event"], k("0"))
+            if isinstance(spec0, dict) and spec0.get("abort"):          # leaves the function (the test is failed and exited)
+                return "(let evs := evs ++ [%s] in %s)" % (spec0["abort"], self.ret("tt" if self.void else "0"))
         if kd == "UnaryExprOrTypeTraitExpr" and n.get("name") == "sizeof":
             q = norm_type((n.get("argType") or {}).get("desugaredQualType") or (n.get("argType") or {}).get("qualType") or
                           (qual(inn[0]) if inn else ""))
@@ -317,14 +340,17 @@ class HeapFn(cxx2gal.LoopFn):
             # a member of `this` or of a pointer: reading needs the heap; assignment targets are found by the generic code below
         if kd == "CXXThisExpr":
             refs.add(self.this_var())
+        if kd == "DeclRefExpr" and n["referencedDecl"].get("kind") == "VarDecl" and self.gvar(n["referencedDecl"]["name"]):
+            refs.add(self.gvar(n["referencedDecl"]["name"]))
+            flags.add("mem")
         if kd in ("BinaryOperator", "CompoundAssignOperator") and n.get("opcode", "").endswith("=") and \
                 n.get("opcode") not in ("==", "!=", "<=", ">="):
             tgt = self.strip(self.inner(n)[0])
-            if tgt.get("kind") in ("MemberExpr", "ArraySubscriptExpr"):
+            if not self.is_local_ref(tgt):
                 flags.add("store")
         if kd == "UnaryOperator" and n.get("opcode") in ("++", "--"):
             tgt = self.strip(self.inner(n)[0])
-            if tgt.get("kind") in ("MemberExpr", "ArraySubscriptExpr"):
+            if not self.is_local_ref(tgt):
                 flags.add("store")
         if kd in ("CXXMemberCallExpr", "CallExpr"):
             try:
@@ -336,7 +362,7 @@ class HeapFn(cxx2gal.LoopFn):
                 flags.add("call")
                 if spec.get("writes") or self.cfg.get("ghosts"):
                     flags.add("store")
-            if isinstance(spec, dict) and (spec.get("method") or spec.get("alloc") or spec.get("free") or spec.get("event")):
+            if isinstance(spec, dict) and (spec.get("method") or spec.get("alloc") or spec.get("free") or spec.get("event") or spec.get("abort")):
                 for g, _ in self.cfg.get("ghosts", []):
                     assigned.add(g)
                     refs.add(g)
@@ -386,6 +412,8 @@ class HeapFn(cxx2gal.LoopFn):
         ret = TYPEDEFS.get(norm_type(ret), ret)
         void = norm_type(ret) == "void"
         self.uses_this = False
+        self.gparams = []
+        self.void = void
         if node.get("kind") == "CXXMethodDecl" and node.get("storageClass") != "static":
             self.this_var()
         for g, t in self.cfg.get("ghosts", []):
@@ -408,6 +436,8 @@ class HeapFn(cxx2gal.LoopFn):
         ps = ["(%s : %s)" % (g, t) for g, t in ghosts]
         if "this_" in self.vars:
             ps.append("(this_ : hptr)")
+        for g in self.gparams:
+            ps.append("(%s : hptr)" % g)
         for p in params:
             nm = self.ident(p.get("name", "_"))
             if nm in self.vars:
